@@ -104,7 +104,7 @@ Definition repeat_iter (ev : ev_t) (e : exp) (sep : option exp) (omitsep : bool)
         let f3b := if omitsep then f3a else append f3a (cstfinal (cst f4)) in
         let f3c := set_cut f3b in
         (IOk f3c, on_cut f3c st1)
-      | (Fail _, st1) => (IStop, st1)            (* option(): the pushed frame saw no cut *)
+      | (Fail c, st1) => (if c then ICommit else IStop, st1)   (* isolate() hands a cut to option()'s frame *)
       | (Fatal k, st1) => (IFatal k, st1)
       end
     end in
@@ -112,11 +112,13 @@ Definition repeat_iter (ev : ev_t) (e : exp) (sep : option exp) (omitsep : bool)
   | (IOk f3c, st1) =>
     match ev e (push f3c) st1 with
     | (Ok _ f5, st2) =>
-      let f3d := append (set_ast (goto f3c (pos f5)) (fast f5)) (cstfinal (cst f5)) in
+      (* isolate(): keep position and ast, hand a cut seen by the iteration to the option's frame *)
+      let f3c' := if cutseen f5 then set_cut f3c else f3c in
+      let f3d := append (set_ast (goto f3c' (pos f5)) (fast f5)) (cstfinal (cst f5)) in
       if Nat.eqb (pos f3d) p
       then (if cutseen f3d then ICommit else IStop, st2)      (* 'matched on no input' *)
       else (IOk (merge f f3d), st2)
-    | (Fail _, st2) => (if cutseen f3c then ICommit else IStop, st2)
+    | (Fail c, st2) => (if cutseen f3c || c then ICommit else IStop, st2)
     | (Fatal k, st2) => (IFatal k, st2)
     end
   | other => other
